@@ -49,26 +49,19 @@ Theorem C02_ogg_packets_partial : forall f c t pad cb f' pages,
        ogg_f_stream_packets (cut_s k) pages =
          ogg_f_unpage (filter (is_serial (cut_s k)) (cut_before k)) ++ [cut_p0 k] ++ post /\
        ogg_f_stream_packets (cut_s k) (cut_result k news) =
-         ogg_f_unpage (filter (is_serial (cut_s k)) (cut_before k)) ++ [cut_d k] ++ post).
+         ogg_f_unpage (filter (is_serial (cut_s k)) (cut_before k)) ++ [cut_d k] ++ post) /\
+    ogg_f_inject c t pad cb f = Ok (olds, news).
 Proof. exact save_obj_packets. Qed.
 Print Assumptions C02_ogg_packets_partial.
 
-(* (3) C02 read as "streams other than the TAGGED one are untouched" is false for the code as it is (genuine defect of
-   /repo, reported): the stream that is edited is the one in which OggVorbis._inject finds a page starting with
-   b"\x03vorbis", which need not be the stream whose tags were loaded.  Witness: the tagged stream is 5, its pages are
-   unchanged by save(), and the packets of stream 9 are not. *)
-Theorem C02_ogg_wrong_stream_refuted : exists f t cb f' pages pages',
-  ogg_wf f = true /\ ogg_save f OVorbis t cb = Ok f' /\ ogg_parse f = Ok pages /\ ogg_parse f' = Ok pages' /\
-  ogg_f_tagged OVorbis pages = Some 5 /\
-  filter (ogg_f_is_serial 5) pages' = filter (ogg_f_is_serial 5) pages /\
-  ogg_f_stream_packets 9 pages' <> ogg_f_stream_packets 9 pages.
-Proof.
-  exists ex_bait, ex_tags, (Some (cb_const 0)), ex_bait_saved, ex_bait_pages, ex_bait_saved_pages.
-  destruct ex_bait_wrong_stream as (A & _ & _ & D & _ & _ & G & H & I & J).
-  split; [exact A|]. split; [exact D|]. split; [vm_compute; reflexivity|]. split; [exact G|]. split; [exact H|].
-  split; [exact I|exact J].
-Qed.
-Print Assumptions C02_ogg_wrong_stream_refuted.
+(* regression (former C02_ogg_wrong_stream_refuted; fixed in /repo): the edited stream is the tagged one -- in the file
+   with a page of stream 9 starting with b"\x03vorbis" in front of the Vorbis comment page, save() leaves every page of
+   stream 9 as it is *)
+Example C02_ogg_ex_foreign_marker_regression :
+  ogg_wf ex_bait = true /\ ogg_save ex_bait OVorbis ex_tags (Some (cb_const 0)) = Ok ex_bait_saved /\
+  ogg_parse ex_bait_saved = Ok ex_bait_saved_pages /\ ogg_f_tagged OVorbis ex_bait_pages = Some 5 /\
+  filter (ogg_f_is_serial 9) ex_bait_saved_pages = filter (ogg_f_is_serial 9) ex_bait_pages.
+Proof. destruct ex_bait_regression as (A & _ & C & _ & _ & F & G & H). repeat split; assumption. Qed.
 
 (* non-vacuity: a multiplexed file (Vorbis stream 5, foreign stream 9) *)
 Example C02_ogg_ex :
